@@ -284,7 +284,7 @@ def run(R):
                       'numpy indexing/broadcasting semantics are modelled by hand (Model/Matrices.v) and tied by the '
                       'correspondence run only']
     # 1. the translator's second rendering against the implementation (validates T)
-    defs = dict((d.name, d) for d, _ in gen.gen_station_angles())
+    defs = R.defs(gen.gen_station_angles)
 
     def impl(ph, radians):
         def f(az, toa):
@@ -293,7 +293,7 @@ def run(R):
             return np.asarray(inv.station_angles({'Azimuth': np.matrix([[az]]), 'TakeOffAngle': np.matrix([[toa]])}, ph)).flatten().tolist()
         return f
     specs = []
-    for ph, _ in PHASES:
+    for ph, _ in (PHASES if defs else []):
         specs.append((defs['coeff_' + ph], impl(ph, False), lambda rng: [rng.uniform(-400, 400), rng.uniform(0, 180)]))
         specs.append((defs['coeff_%s_rad' % ph], impl(ph, True), lambda rng: [rng.uniform(-7, 7), rng.uniform(0, math.pi)]))
     validate_defs(R, specs, R.n(60, 1500), tol=1e-12)
